@@ -72,7 +72,7 @@ struct Action {
     // source sets. The two entries are never the same for actions on the
     // actions stack. (Ideally, this would be an anonymous struct with proper
     // field names but gcc does not allow this, as opposed to clang.)
-    std::set<SourceSet>::const_iterator source_sets_it[2];
+    SourceSetSet::const_iterator source_sets_it[2];
   };
 
   Action(ActionType action_type, const Binding* goal)
@@ -80,8 +80,8 @@ struct Action {
   Action(ActionType action_type, GoalSet::iterator erase_it)
       : action_type(action_type), erase_it(erase_it) {}
   Action(ActionType action_type,
-         std::set<SourceSet>::const_iterator source_sets_it,
-         std::set<SourceSet>::const_iterator source_sets_end)
+         SourceSetSet::const_iterator source_sets_it,
+         SourceSetSet::const_iterator source_sets_end)
       : action_type(action_type),
         source_sets_it{source_sets_it, source_sets_end} {}
 };
